@@ -260,8 +260,13 @@ class t2grid(object):
         """Adds a rock type to the grid.  Any existing rocktype of the same name is replaced."""
         if newrocktype is None: newrocktype = rocktype()
         if newrocktype.name in self.rocktype:
-            i = self.rocktypelist.index(self.rocktype[newrocktype.name])
+            oldrocktype = self.rocktype[newrocktype.name]
+            i = self.rocktypelist.index(oldrocktype)
             self.rocktypelist[i] = newrocktype
+            if newrocktype is not oldrocktype:
+                # blocks with the replaced rocktype now have the new one:
+                for blk in self.blocklist:
+                    if blk.rocktype is oldrocktype: blk.rocktype = newrocktype
         else: self.rocktypelist.append(newrocktype)
         self.rocktype[newrocktype.name] = newrocktype
 
